@@ -398,16 +398,20 @@ Definition hopen_existing (acc_mode : Z) (dds : list dd) (fend : Z) (diskver : Z
   if Z.eqb aid FAIL then upd_version f1 (f_vset f1) 0 (0, 0, 0)
   else let '(f2, _, _) := hendaccess f1 aid in upd_version f2 (f_vset f2) 0 diskver.
 
-(** HIupdate_version: Hputelement of the version element; the modified flag is cleared only on success *)
-Definition hiupdate_version (f : frec) : frec * list dev :=
+(** HIupdate_version: Hputelement of the version element; the modified flag is cleared only on success; the result
+    (FAIL / SUCCEED) is returned to Hclose *)
+Definition hiupdate_version (f : frec) : frec * Z * list dev :=
   let '(f1, r, w) := hputelement f DFTAG_VERSION 1 92 in
-  if Z.eqb r FAIL then (f1, w)
-  else (upd_diskver (upd_version f1 (f_vset f1) 0 (LIBVER_MAJOR, LIBVER_MINOR, LIBVER_RELEASE)) (LIBVER_MAJOR, LIBVER_MINOR, LIBVER_RELEASE), w).
+  if Z.eqb r FAIL then (f1, FAIL, w)
+  else (upd_diskver (upd_version f1 (f_vset f1) 0 (LIBVER_MAJOR, LIBVER_MINOR, LIBVER_RELEASE)) (LIBVER_MAJOR, LIBVER_MINOR, LIBVER_RELEASE), 0, w).
 
-(** Hclose (single open): version update when modified, then refuse while access records are attached, then sync *)
+(** Hclose (single open): the version element is refreshed when it is marked modified AND the file allows writing
+    (a failure of that update fails the close and leaves the file open); then the close is refused while access
+    records are attached; then the cached DD blocks / file end are flushed *)
 Definition hclose (f : frec) : frec * Z * list dev :=
   if negb (f_open f) then (f, FAIL, []) else
-  let '(f1, w1) := if nz (hclose_updates_version 1 (f_vmod f)) then hiupdate_version f else (f, []) in
+  let '(f1, r1, w1) := if nz (hclose_updates_version 1 (f_vmod f) (f_access f)) then hiupdate_version f else (f, 0, []) in
+  if nz (hclose_fails_when_update_fails r1) then (f1, FAIL, w1) else
   match f_recs f1 with
   | _ :: _ => (f1, FAIL, w1)
   | [] => let '(f2, _, w2) := hisync f1 in (upd_open f2 false, 0, w1 ++ w2)
